@@ -26,11 +26,31 @@ let parse_scan s = match String.split_on_char '/' s with
     { so_ts = n_of_hex t; so_keys = List.map n_of_hex (split '.' ks);
       so_own = List.map (kv ownv) (split ',' own); so_res = List.map (kv n_of_hex) (split ',' res) }
   | _ -> failwith ("bad scan " ^ s)
+(* status-cache sequences:  S <id> <txn>:<ttl>:<commit>:<action>,...   (decimal)
+   answer:                  S <id> <ttl>.<commit>.<action>.<rpc>.<cacheable>.<committed>.<rolledback>,... *)
+let action_of_int = function 0 -> ANoAction | 1 -> ATTLExpireRollback | 2 -> ALockNotExistRollback | 3 -> AMinCommitTSPushed
+  | 4 -> ATTLExpirePessimisticRollback | 5 -> ALockNotExistDoNothing | _ -> failwith "action"
+let int_of_action = function ANoAction -> 0 | ATTLExpireRollback -> 1 | ALockNotExistRollback -> 2 | AMinCommitTSPushed -> 3
+  | ATTLExpirePessimisticRollback -> 4 | ALockNotExistDoNothing -> 5
+let bi b = if b then 1 else 0
+let status_seq id calls =
+  let cache = ref [] in
+  let one call = match String.split_on_char ':' call with
+    | [txn; ttl; c; a] ->
+      let ans = ((n_of_int (int_of_string ttl), n_of_int (int_of_string c)), action_of_int (int_of_string a)) in
+      let ((v, cache'), sent) = get_txn_status !cache (n_of_int (int_of_string txn)) ans in
+      cache := cache';
+      let ((vt, vc), va) = v in
+      Printf.sprintf "%d.%d.%d.%d.%d.%d.%d" (int_of_n vt) (int_of_n vc) (int_of_action va) (bi sent) (bi (cacheable v))
+        (bi (cs_committed v)) (bi (cs_rolledback v))
+    | _ -> failwith ("bad call " ^ call) in
+  print_endline ("S " ^ id ^ " " ^ String.concat "," (List.map one (String.split_on_char ',' calls)))
 let () =
   try
     while true do
       let line = input_line stdin in
       match String.split_on_char ' ' (String.trim line) with
+      | ["S"; id; calls] -> status_seq id calls
       | [id; h; o; sc] ->
         let hist = List.map parse_key (split ';' h) in
         let obs = List.map parse_obs (split ',' o) in
